@@ -107,53 +107,88 @@ impl Space for AnimSpace {
     }
     fn run(&self, i: u64) -> CaseResult {
         let d = vcore::gen::mixed_radix(i, &RADICES);
-        let fmt = FORMATS[d[0] as usize];
         let mut r = CaseResult::new();
         r.key = format!("anim/{:?}", d);
         r.nontrivial = d[1] != 0;
         let a = make(&d);
-        let mut w1o = None;
-        (|r: &mut CaseResult| {
-            let w1 = step!(r, awrite(&a), format!("{fmt} anim: write"), true);
-            r.count("writes", 1);
-            w1o = Some(w1.clone());
-            let p1 = step!(r, aparse(&w1), format!("{fmt} anim: parse(write(a))"), false);
-            r.count("parses", 1);
-            diff(r, &format!("{fmt} anim: parse(write(a)) differs from a"), &content(&a), &content(&p1), false);
-            let w2 = step!(r, awrite(&p1), format!("{fmt} anim: write(parse(write(a)))"), false);
-            if w2 != w1 {
-                r.viol(format!("{fmt} anim: write(parse(write(a))) is not byte-identical to write(a)"), format!("lengths {} vs {}", w1.len(), w2.len()));
-            }
-        })(&mut r);
+        let w1o = roundtrip(&mut r, &a, "");
         // conversion: WotLK keeps/gets the legacy container, Legion the modern one
-        for (tn, tv, tf) in [("WotLK", M2Version::WotLK, 0u64), ("Legion", M2Version::Legion, 1u64)] {
-            let mut t = CaseResult::new();
-            (|t: &mut CaseResult| {
-                let c = step!(t, call(|| Ok(a.convert(tv))), format!("{fmt} anim: convert"), false);
-                if tf == d[0] {
-                    let wc = step!(t, awrite(&c), format!("{fmt} anim: write(convert(a, same format))"), false);
-                    if let Some(w1) = &w1o {
-                        if *w1 != wc {
-                            t.viol(format!("{fmt} anim: conversion to the same container format changes the written bytes"), "");
+        if r.viols.is_empty() {
+            for (tn, tv, tf) in [("WotLK", M2Version::WotLK, 0u64), ("Legion", M2Version::Legion, 1u64)] {
+                let fmt = FORMATS[d[0] as usize];
+                let mut t = CaseResult::new();
+                (|t: &mut CaseResult| {
+                    let c = step!(t, call(|| Ok(a.convert(tv))), format!("{fmt} anim: convert"), false);
+                    if tf == d[0] {
+                        let wc = step!(t, awrite(&c), format!("{fmt} anim container: write(convert(a, same format))"), false);
+                        if let Some(w1) = &w1o {
+                            if *w1 != wc {
+                                t.viol(format!("{fmt} anim container: conversion to the same container format changes the written bytes"), "");
+                            }
                         }
+                        return;
                     }
-                    return;
+                    if format!("{:?}", c.format).to_lowercase() != FORMATS[tf as usize] {
+                        t.viol(format!("{fmt} anim: converted file has the wrong container format"), format!("{:?}", c.format));
+                        return;
+                    }
+                    let n0 = t.viols.len();
+                    diff(t, &format!("{fmt} anim: conversion loses content"), &content(&a), &content(&c), true);
+                    if t.viols.len() != n0 {
+                        return;
+                    }
+                    // the converted object must itself survive write→parse in its container
+                    roundtrip(t, &c, "converted: ");
+                })(&mut t);
+                for v in t.viols {
+                    r.viol(v.symptom, format!("to {tn}: {}", v.detail));
                 }
-                if format!("{:?}", c.format).to_lowercase() != FORMATS[tf as usize] {
-                    t.viol(format!("{fmt} anim: converted file has the wrong container format"), format!("{:?}", c.format));
-                    return;
-                }
-                diff(t, &format!("{fmt} anim: conversion loses content"), &content(&a), &content(&c), true);
-                let wc = step!(t, awrite(&c), format!("{fmt} anim: write(convert(a))"), true);
-                let pc = step!(t, aparse(&wc), format!("{fmt} anim: parse(write(convert(a)))"), false);
-                diff(t, &format!("{fmt} anim: conversion loses content after write→parse"), &content(&a), &content(&pc), true);
-            })(&mut t);
-            for v in t.viols {
-                r.viol(v.symptom, format!("to {tn}: {}", v.detail));
+                r.count("conversions", 1);
             }
-            r.count("conversions", 1);
         }
         r.outcome = if r.viols.is_empty() { "held".into() } else { format!("{}viol", r.outcome) };
         r
     }
+}
+
+/// write→parse→write of one AnimFile; symptoms are named after the container of the file
+fn roundtrip(r: &mut CaseResult, a: &AnimFile, tag: &str) -> Option<Vec<u8>> {
+    let fmt = if a.format == AnimFormat::Modern { "modern" } else { "legacy" };
+    let mut out = None;
+    (|r: &mut CaseResult| {
+        let w1 = step!(r, awrite(a), format!("{fmt} anim container: {tag}write(a)"), true);
+        r.count("writes", 1);
+        out = Some(w1.clone());
+        let parsed = aparse(&w1);
+        if fmt == "legacy" {
+            // one class for the legacy container: whatever form the loss takes (refusal of a short
+            // file, a placeholder section, missing bones) the written sections do not come back
+            let lost = match &parsed {
+                Call::Ok(p) => content(p) != content(a),
+                Call::Err(_) => true,
+                Call::Panic(..) => false,
+            };
+            if lost {
+                let how = match &parsed {
+                    Call::Ok(p) => format!("wrote {} section(s), read back {} with {} bone animation(s)", a.sections.len(), p.sections.len(), p.sections.iter().map(|s| s.bone_animations.len()).sum::<usize>()),
+                    Call::Err(e) => format!("Err: {e} ({}-byte file)", w1.len()),
+                    _ => String::new(),
+                };
+                r.viol(format!("legacy anim container: {tag}parse(write(a)) does not give back the sections that were written"), how);
+                return;
+            }
+        }
+        let p1 = step!(r, parsed, format!("{fmt} anim container: {tag}parse(write(a))"), false);
+        r.count("parses", 1);
+        let n0 = r.viols.len();
+        diff(r, &format!("{fmt} anim container: {tag}parse(write(a)) differs from a"), &content(a), &content(&p1), false);
+        if r.viols.len() != n0 {
+            return;
+        }
+        let w2 = step!(r, awrite(&p1), format!("{fmt} anim container: {tag}write(parse(write(a)))"), false);
+        if w2 != w1 {
+            r.viol(format!("{fmt} anim container: {tag}write(parse(write(a))) is not byte-identical to write(a)"), format!("lengths {} vs {}", w1.len(), w2.len()));
+        }
+    })(r);
+    out
 }
